@@ -63,6 +63,7 @@ class WriteOnlyOut:
         object.__setattr__(self, "_b", bytearray())
         object.__setattr__(self, "touched", [])
         object.__setattr__(self, "flushes", 0)
+        object.__setattr__(self, "flushed_len", 0)
 
     def write(self, b):
         self._b.extend(b)
@@ -70,6 +71,11 @@ class WriteOnlyOut:
 
     def flush(self):
         object.__setattr__(self, "flushes", self.flushes + 1)
+        object.__setattr__(self, "flushed_len", len(self._b))
+
+    def delivered(self):
+        """What a consumer at the other end of a buffering pipe or socket has received: the bytes written before the last flush."""
+        return bytes(self._b[: getattr(self, "flushed_len", 0)])
 
     def seekable(self):
         return False
